@@ -15,16 +15,6 @@ pub fn extend_set(s: &mut HashSet<UUID>, v: Vec<UUID>)
 {
     s.extend(v)
 }
-// TRUSTED helper (site rewrite in filtered_block_connected):
-// `txdata.iter().map(|(_, tx)| (tx.compute_txid(), header.block_hash())).collect::<HashMap<_, _>>()`
-#[verifier::external_body]
-pub fn txid_block_map(txdata: &Vec<(usize, Transaction)>, header: &Header) -> (r: HashMap<Txid, BlockHash>)
-    ensures
-        forall|t: Txid| #[trigger] r@.contains_key(t) <==> exists|i: int| 0 <= i < txdata@.len() && txid_spec(#[trigger] txdata@[i].1) == t,
-        forall|t: Txid| r@.contains_key(t) ==> #[trigger] r@[t] == header.h,
-{
-    txdata.iter().map(|p| (p.1.compute_txid(), header.block_hash())).collect()
-}
 // TRUSTED helper (site rewrite in filtered_block_connected): `txs.keys().cloned().collect::<HashSet<_>>()`
 #[verifier::external_body]
 pub fn key_set(m: &HashMap<Txid, BlockHash>) -> (r: HashSet<Txid>)
